@@ -103,7 +103,7 @@ class UpdateReferences:
                     oldref.to_end == newref.to_end):
               # the real link is written in the complement form of the
               # placeholder (whose overlap may be unspecified)
-              elem.orient = gfapy.invert(elem.orient)
+              elem._set_orient(gfapy.invert(elem.orient))
             else:
               # a link from an end to the same end: the two forms differ
               # in the overlap only; the overlap the path asks for decides
@@ -114,12 +114,12 @@ class UpdateReferences:
                   required = ovs[idx]
                 if required and newref.overlap and \
                     required != newref.overlap:
-                  elem.orient = "-"
+                  elem._set_orient("-")
                 else:
-                  elem.orient = "+"
+                  elem._set_orient("+")
               elif oldref.overlap and newref.overlap and \
                   oldref.overlap != newref.overlap:
-                elem.orient = gfapy.invert(elem.orient)
+                elem._set_orient(gfapy.invert(elem.orient))
           elem._set_line(newref)
           found = True
     if newref is None and found:
